@@ -33,6 +33,18 @@ def read_table(db_path):
     return {(h, p): f for h, p, f in rows}
 
 
+def spell(ch, host, label="case"):
+    """A letter-case variant of a host name (DNS names are case-insensitive)."""
+    k = ch.choose(label, 4, [6, 1, 1, 1])
+    if k == 0:
+        return host
+    if k == 1:
+        return host.upper()
+    if k == 2:
+        return host.title()
+    return "".join(c.upper() if i % 2 else c for i, c in enumerate(host))
+
+
 def load_cert(name):
     from cryptography import x509
     return x509.load_der_x509_certificate(fx.der(name))
@@ -50,6 +62,8 @@ class TofuWorld:
         self.redirect = {}        # (h, p) -> (h2, p2) | None
         self.reader_mode = {}     # (h, p) -> 'eager' | 'lazy' | 'never'
         self.fail_mode = {}       # (h, p) -> None | 'close' | 'rst' | 'stall'
+        self.redirect_spelling = {}   # (h, p) -> host spelling used in the 3x target
+        self.speak_first = {}     # (h, p) -> True: TLS 1.2 server that answers before any request
         self.records = []
         self.use_ec = False
         self.cut = 0
@@ -62,13 +76,22 @@ class TofuWorld:
 
             def respond(peer):
                 line = bytes(peer.rx_plain).split(b"\r\n")[0]
-                if tgt is not None and line.startswith(b"gemini://"):
-                    peer.send_app(f"30 gemini://{tgt[0]}:{tgt[1]}/hop\r\n".encode())
+                if tgt is not None and line.lower().startswith(b"gemini://"):
+                    th = self.redirect_spelling.get(key) or tgt[0]
+                    peer.send_app(f"30 gemini://{th}:{tgt[1]}/hop\r\n".encode())
                 else:
                     peer.send_app(f"20 text/plain\r\nhello from {h}:{p}\n".encode())
+            def respond_first(peer):
+                # speaks before it knows the request: always the plain answer, never a redirect
+                peer.send_app(f"20 text/plain\r\nhello from {h}:{p}\n".encode())
             mode = self.reader_mode.get(key, "eager")
             fail = self.fail_mode.get(key)
             d = {"script": [("wait_line",), ("call", respond), ("close",)]}
+            if self.speak_first.get(key) and not fail:
+                # response and close ride in the same flight as the server's Finished
+                d = {"script": [("call", respond_first), ("close",)]}
+                if mode == "never":
+                    d["reader"] = "never"
             if fail == "close":
                 d = {"script": [("wait_line",), ("close",)]}
             elif fail == "rst":
